@@ -379,9 +379,11 @@ func (c *ClientConn) maybeCachePrepared(request Request, raw *frame.RawFrame) {
 
 func (c *ClientConn) Closing(err error) {
 	c.closingMu.Lock()
-	c.closing = true
-	c.pending.closing(err)
+	c.closing = true // No request can be added to pending after this
 	c.closingMu.Unlock()
+	// Notify outside the lock: a notified request may be retried on another connection, which takes that
+	// connection's lock, and two connections closing at the same time would otherwise wait on each other.
+	c.pending.closing(err)
 }
 
 func (c *ClientConn) addToPending(request Request) (int16, error) {
